@@ -75,9 +75,9 @@ def preset(pid, tier):
         return dict(
             mc=aol(MaxDeliver=5 if q else 6, NextKinds=ALL_NEXT, MaxHeight=3),
             props=['P_C01', 'P_C08', 'P_C10'], invs=['I_C01'],
-            tour=aol(Accts=S(['a1', 'a2']), Topics=S(['t1']), ViewTopics=S(['t1']), MaxDeliver=4 if q else 5, MaxHeight=2),
+            tour=aol(Accts=S(['a1', 'a2']), Topics=S(['t1']), ViewTopics=S(['t1']), FeePayers=S(['none', 'a1']), MaxDeliver=4 if q else 5, MaxHeight=2),
             sims=[sim(aol(Accts=S(['a1', 'a2', 'a3', 'a4']), Topics=S(['t1', 't2', 't3']), ViewTopics=S(['t1', 't2', 't3']), RecKeys=S(['k1', 'k2', '']), RecVals=S(['v1', 'v2', '']),
-                          MaxDeliver=40, MaxHeight=8, NextKinds=ALL_NEXT_R, FailKeep=40), 120 if q else 2000, 50),
+                          FeePayers=S(['none', 'a1', 'a3']), MaxDeliver=40, MaxHeight=8, NextKinds=ALL_NEXT_R, FailKeep=40), 120 if q else 2000, 50),
                   sim(aol(MaxDeliver=12, MaxHeight=6, NextKinds=ALL_NEXT, FailKeep=10), 80 if q else 1500, 25, genesis=dict(mint=True))])
     if pid == 'C02':
         return dict(
@@ -87,7 +87,9 @@ def preset(pid, tier):
             tour=[dict(constants=aol(Accts=S(['a1', 'a2', 'a3']), Topics=S(['t1']), ViewTopics=S(['t1']), RecVals=S(['v1']), SignerSets='all', FeePayers=S(['none', 'a1', 'a2']),
                                      MaxDeliver=3 if q else 4, MaxHeight=2, ExecOn=False)),
                   # rollback probes: [m1, m2, always-failing] for every ordered pair, then the whole alphabet again - in the same process
-                  dict(constants=aol(Accts=S(['a1', 'a2']), Topics=S(['t1']), ViewTopics=S(['t1']), RecVals=S(['v1']), MaxDeliver=2 if q else 3, MaxHeight=2), probes=True)],
+                  dict(constants=aol(Accts=S(['a1', 'a2']), Topics=S(['t1']), ViewTopics=S(['t1']), RecVals=S(['v1']), MaxDeliver=2 if q else 3, MaxHeight=2), probes=True),
+                  # two topics of one owner whose names differ only in letter case: a writer of one is not a writer of the other
+                  dict(constants=aol(Accts=S(['a1', 'a2']), Topics=S(['t1', 'tc']), ViewTopics=S(['t1', 'tc']), RecVals=S(['v1']), MaxDeliver=3 if q else 4, MaxHeight=2))],
             sims=[sim(aol(Accts=S(['a1', 'a2', 'a3', 'a4']), SignerSets='all', FeePayers=S(['none', 'a1', 'a2', 'a3']), ExecOn=True,
                           Kinds=AOL_KINDS | S(['authz.Grant', 'authz.Revoke']), Fees=S([0, 1]), MaxDeliver=40, MaxHeight=6, FailKeep=8), 150 if q else 3000, 40),
                   # three-message transactions over one topic: work done by the first messages and rolled back by a failing last one must leave no authorisation behind
@@ -116,13 +118,19 @@ def preset(pid, tier):
     if pid in ('C03', 'C04', 'C05', 'C11'):
         props = {'C03': ['P_C03'], 'C04': ['P_C04'], 'C05': ['P_C05', 'P_C08', 'P_C10'], 'C11': []}[pid]
         invs = {'C03': [], 'C04': ['I_C04'], 'C05': ['I_C05'], 'C11': ['I_C11']}[pid]
-        docs = S(['A1', 'A2', 'C1', 'D2']) if q else S(['A1', 'A2', 'B12', 'C1', 'D2', 'E1', 'F12'])
+        docs = S(['A1', 'A2', 'C1', 'D2']) if q else S(['A1', 'A2', 'B12', 'C1', 'D2', 'E1', 'F12', 'U1'])
         mcc = did(DocNames=docs, MaxDeliver=4 if q else 5, MaxHeight=3 if pid == 'C05' else 2,
                   NextKinds=ALL_NEXT if pid == 'C05' else (S(['BeginBlock', 'Redeliver']) if pid == 'C04' else S(['BeginBlock'])))
         simc = did(Accts=S(['a1', 'a2', 'a3']), Dids=S(['d1', 'd2', 'dc']), ViewDids=S(['d1', 'd2', 'dc']),
-                   DocNames=S(['A1', 'A2', 'B12', 'C1', 'D2', 'E1', 'F12', 'R1', 'N0', 'EMP']), ForeignVm=True, MaxDeliver=30, MaxHeight=6, NextKinds=ALL_NEXT_R, FailKeep=25)
-        tourc = did(DocNames=S(['A1', 'A2', 'F12']) if q else S(['A1', 'A2', 'C1', 'D2', 'F12']), Keys=S(['k1', 'k2']) if q else S(['k1', 'k2', 'k3']), MaxDeliver=2 if q else 3, MaxHeight=2)
+                   DocNames=S(['A1', 'A2', 'B12', 'C1', 'D2', 'E1', 'F12', 'R1', 'U1', 'N0', 'EMP']), ForeignVm=True, MaxDeliver=30, MaxHeight=6, NextKinds=ALL_NEXT_R, FailKeep=25)
+        tourc = did(DocNames=S(['A1', 'A2', 'F12', 'U1']) if q else S(['A1', 'A2', 'C1', 'D2', 'F12', 'U1']), Keys=S(['k1', 'k2']) if q else S(['k1', 'k2', 'k3']), MaxDeliver=2 if q else 3, MaxHeight=2)
         sims = [sim(simc, 150 if q else 3000, 50)]
+        if pid in ('C03', 'C04'):
+            # few document shapes, so that rich documents (which name the OTHER did as controller) are stored often, and cross-entry proofs (DidCross) meet
+            # registry entries whose sequence numbers differ
+            cross = did(Accts=S(['a1', 'a2']), Dids=S(['d1', 'dc']), ViewDids=S(['d1', 'dc']), DocNames=S(['A1', 'A2', 'R1']), Keys=S(['k1', 'k2']), VmNames=S(['v1']),
+                        ForeignVm=True, MaxDeliver=30, MaxHeight=5, NextKinds=ALL_NEXT_R, FailKeep=25)
+            sims.append(sim(cross, 60 if q else 1000, 40))
         if pid == 'C05':
             # histories that start from a legacy registry entry (key dc holding a document about d1): deactivation must tombstone the KEY that was addressed
             legacy = did(Accts=S(['a1', 'a2']), Dids=S(['d1', 'dc']), ViewDids=S(['d1', 'dc']), DocNames=S(['A1', 'A2']), Keys=S(['k1', 'k2']), VmNames=S(['v1']),
@@ -174,7 +182,7 @@ def preset(pid, tier):
         # generator that believes '/' is fine in topic names (the genesis key separator); the judge keeps the published alphabet
         slash = aol(Accts=S(['a1', 'a2']), Topics=S(['t1', 'ts']), ViewTopics=S(['t1', 'ts']), MaxDeliver=12, MaxHeight=5, NextKinds=S(['BeginBlock', 'ExportImportBegin']),
                     FailKeep=30, Deviations=S(['slashtopics']))
-        return dict(mc=mcc, props=['P_C08'], invs=[], sims=[sim(simc, 120 if q else 2500, 70), sim(slash, 30 if q else 400, 30)], mc_timeout=2400)
+        return dict(mc=mcc, props=['P_C08'], invs=['I_Genesis'], sims=[sim(simc, 120 if q else 2500, 70), sim(slash, 30 if q else 400, 30)], mc_timeout=2400)
     raise KeyError(pid)
 
 
